@@ -26,6 +26,7 @@ int main(int argc, char** argv) {
     else if (!strcmp(argv[i], "--midclock")) c18_midclock = 1;
     else if (!strcmp(argv[i], "--gentle")) { c18_midclock = 1; c18_gentle = 1; }
     else if (!strcmp(argv[i], "--abandoned")) { c18_midclock = 1; c18_gentle = 1; c18_abandoned = 1; }
+    else if (!strcmp(argv[i], "--abandoned2")) { c18_midclock = 1; c18_gentle = 1; c18_abandoned = 2; }
     else if (!strcmp(argv[i], "--fault") && i + 1 < argc) fault_at = atol(argv[++i]);
     else if (!strcmp(argv[i], "--persist")) fault_persist = 1;
     else if (!strcmp(argv[i], "--kind") && i + 1 < argc) fault_kind = atoi(argv[++i]);
